@@ -159,9 +159,10 @@ func c22RunOne(id int, path, content string) (res c22Res) {
 // c22Child: frames `<id> <pathlen> <len>\n<path><content>` on stdin; one JSON line per input on fd 3.
 func c22Child() {
 	// Unbounded recursion ends in `fatal error: stack overflow` once the goroutine stack reaches the limit
-	// (default 1 GB, reached after several seconds of stack copying). A quarter of that is still far more
-	// than any legitimate recursion over inputs of at most a few hundred KB needs, and is detected sooner.
-	debug.SetMaxStack(256 << 20)
+	// (default 1 GB, reached after 10-40 s of stack copying on a busy machine). 64 MB is still far more than
+	// any legitimate recursion over inputs of at most a few hundred KB needs (the deepest nesting generated
+	// here is ~4000 levels, a few MB of stack), and is detected within a second or two.
+	debug.SetMaxStack(64 << 20)
 	out := os.NewFile(3, "results")
 	if out == nil {
 		fmt.Fprintln(os.Stderr, "C22-child: fd 3 missing")
@@ -364,8 +365,19 @@ func (w *c22Worker) run(id int, path, content string, limit time.Duration) c22Re
 			}
 		}
 		res.Msg = c22FirstLine(res.Msg)
-		if m := c22FrameRE.FindStringSubmatch(text); m != nil {
-			res.Where = m[1]
+		// innermost frame of the repository under test; for a stack overflow the frame that occurs most often
+		// in the (abbreviated) traceback, i.e. the function that recurses
+		if ms := c22FrameRE.FindAllStringSubmatch(text, -1); len(ms) > 0 {
+			res.Where = ms[0][1]
+			if res.CrashKind == "runtime-fatal" {
+				cnt := map[string]int{}
+				for _, m := range ms {
+					cnt[m[1]]++
+					if cnt[m[1]] > cnt[res.Where] {
+						res.Where = m[1]
+					}
+				}
+			}
 		}
 		return res
 	case <-timer.C:
@@ -402,7 +414,7 @@ func c22Tokens(text string) []string { return c22TokRE.FindAllString(text, -1) }
 var c22Vocabulary = []string{
 	":: lexer", ":: parser", "::", "%input", "%left", "%right", "%nonassoc", "%generate", "%assert", "%interface", "%flag",
 	"%lookahead", "%s", "%x", "%empty", "%prec", "%expect", "%expect-rr", "%inject", "%param", "%%", "set(", "(?=", "->", "separator",
-	"as", "no-eoi", "empty", "nonempty", "class", "space", "returns", "inline", "void", "lalr(2)", "lalr(9)", "lalr(0)", ".greedy", ".lr0", ".foo",
+	"as", "no-eoi", "empty", "nonempty", "class", "space", "returns", "inline", "void", "lalr(2)", "lalr(3)", "lalr(9)", "lalr(0)", ".greedy", ".lr0", ".foo",
 	"[", "]", "(", ")", "{", "}", "<", ">", "|", ";", ":", ",", "=", "?", "*", "+", "!", "&", "~", "$", "@", "/", "'", "\"", "\\", "%", "-1", "0", "true", "false",
 	"error", "invalid_token", "eoi", "input", "language", "go", "cc", "ts", "first", "last", "follow", "precede", "(?= !", "<*>", "<initial>", "+?", "*?", "/rr",
 	"{ $$ = $1 }", "{ ${left()} }", "[Flag]", "[!Flag]", "<+Flag>", "<~Flag>", "<Flag=true>", "Flag", "(a | b)", "()", "(  )+", "(separator ',')+", "-> Node/Flag,Other", "-> Node as Sel",
@@ -626,6 +638,8 @@ func c22OptionGrammar(r *rand.Rand) string {
 			default:
 				v = []string{`["A", "B -> A"]`, `["A -> A"]`, `[]`}[r.Intn(3)]
 			}
+		} else if (o.typ == "strings" || o.typ == "extra") && r.Intn(2) == 0 {
+			v = []string{`[true]`, `["a", 5]`, `[["a"]]`, `[1, 2]`, `["a", "\x"]`, `[x]`, `["A ->"]`, `["-> A"]`, `["A -> B C"]`, `[ , ]`, `["a",]`}[r.Intn(11)]
 		} else {
 			v = c22OptValues[r.Intn(len(c22OptValues))]
 		}
@@ -992,7 +1006,9 @@ func c22ChaosGrammar(r *rand.Rand, name string) string {
 		return sb.String() // lexer only
 	}
 	if g.lang == "go" && g.p(25) {
-		fmt.Fprintf(&sb, "\n:: parser lalr(%d)\n\n", []int{1, 2, 2, 3, 8, 9}[r.Intn(6)])
+		// k <= 4: resolving the conflicts of such grammars costs time exponential in k (one sample: k = 4: 2 s,
+		// k = 5: 9 s, k = 8: more than 10 minutes) — slow, but it terminates; 9 is out of the accepted range
+		fmt.Fprintf(&sb, "\n:: parser lalr(%d)\n\n", []int{1, 2, 2, 3, 4, 9}[r.Intn(6)])
 	} else {
 		sb.WriteString("\n:: parser\n\n")
 	}
@@ -1276,18 +1292,18 @@ func c22(c *Ctx) {
 	for _, s := range seeds {
 		switch {
 		case s.heavy:
-			mutants("mut-shipped-js", s, c.N(2, 14))
+			mutants("mut-shipped-js", s, c.N(2, 24))
 		case strings.Contains(s.name, "textmapper"):
-			mutants("mut-shipped", s, c.N(30, 300))
+			mutants("mut-shipped", s, c.N(30, 900))
 		default:
-			mutants("mut-shipped", s, c.N(40, 400))
+			mutants("mut-shipped", s, c.N(40, 1200))
 		}
 	}
 	for _, s := range testdata {
-		mutants("mut-testdata", s, c.N(6, 60))
+		mutants("mut-testdata", s, c.N(6, 150))
 	}
 	// generated grammars and their mutants
-	nGen := c.N(60, 600)
+	nGen := c.N(60, 1500)
 	for i := 0; i < nGen; i++ {
 		cfg := GramCfg{MaxNT: 4, MaxNN: 4, MaxRules: 3, MaxRHS: 4, MultiInput: c.Rng.Intn(3) == 0, Prec: c.Rng.Intn(3) == 0, PEmpty: 0.15}
 		g := RandGram(c.Rng, cfg)
@@ -1309,22 +1325,22 @@ func c22(c *Ctx) {
 		add(c22Input{Name: s.name, Kind: "generated", Text: text})
 		mutants("mut-generated", s, 2)
 	}
-	nFeat := c.N(30, 300)
+	nFeat := c.N(30, 800)
 	for i := 0; i < nFeat; i++ {
 		text, _ := c18RandGrammar(c.Rng, fmt.Sprintf("f%d", i))
 		s := seed{fmt.Sprintf("feat%d", i), text, false}
 		add(c22Input{Name: s.name, Kind: "feature", Text: text})
 		mutants("mut-feature", s, 4)
 	}
-	for i, n := 0, c.N(180, 2500); i < n; i++ {
+	for i, n := 0, c.N(180, 9000); i < n; i++ {
 		s := seed{fmt.Sprintf("chaos%d", i), c22ChaosGrammar(c.Rng, fmt.Sprintf("c%d", i)), false}
 		add(c22Input{Name: s.name, Kind: "chaos", Text: s.text})
 		mutants("mut-chaos", s, 1)
 	}
-	for i, n := 0, c.N(50, 500); i < n; i++ {
+	for i, n := 0, c.N(60, 1500); i < n; i++ {
 		add(c22Input{Name: fmt.Sprintf("opts%d", i), Kind: "options", Text: c22OptionGrammar(c.Rng)})
 	}
-	for i, n := 0, c.N(60, 600); i < n; i++ {
+	for i, n := 0, c.N(60, 1500); i < n; i++ {
 		t, pat, o := c22RegexGrammar(c.Rng)
 		add(c22Input{Name: fmt.Sprintf("regex%d", i), Kind: "regex", Text: t, Pattern: pat, PatOpts: o, IsMapErr: true})
 	}
@@ -1356,6 +1372,7 @@ func c22(c *Ctx) {
 	var wg sync.WaitGroup
 	var restarts int
 	var mu sync.Mutex
+	var slow []string
 	for w := 0; w < nWorkers; w++ {
 		wg.Add(1)
 		go func() {
@@ -1363,6 +1380,16 @@ func c22(c *Ctx) {
 			wk := &c22Worker{self: self}
 			for i := range jobs {
 				results[i] = wk.run(i, c22Path, inputs[i].Text, limitFor(inputs[i]))
+				if results[i].CrashKind == "timeout" {
+					// slow or hanging? one more try with six times the limit decides
+					first := results[i].Millis
+					results[i] = wk.run(i, c22Path, inputs[i].Text, 6*limitFor(inputs[i]))
+					if results[i].CrashKind != "timeout" {
+						mu.Lock()
+						slow = append(slow, fmt.Sprintf("%s: no result after %d ms, finished in %d ms on the second try", inputs[i].Name, first, results[i].Millis))
+						mu.Unlock()
+					}
+				}
 			}
 			wk.stop()
 			mu.Lock()
@@ -1376,6 +1403,13 @@ func c22(c *Ctx) {
 	close(jobs)
 	wg.Wait()
 	c.Extra["child_starts"] = restarts
+	sort.Strings(slow)
+	for _, sl := range slow {
+		c.Count("slow-input")
+		if len(c.Notes) < 8 {
+			c.Notes = append(c.Notes, "slow input "+sl)
+		}
+	}
 	c.Extra["inputs"] = len(inputs)
 
 	if d := os.Getenv("C22_DUMP"); d != "" { // debugging aid: every input with its outcome
